@@ -94,7 +94,7 @@ class LayeredArchitecture(BaseLayeredArchitecture, LayerName, LayerDefinition):
 
         if duplicates:
             raise ImproperlyConfigured(
-                f'Module(s) {", ".join(duplicates)} already assigned to a layer.'
+                f'Module(s) {", ".join(sorted(duplicates))} already assigned to a layer.'
             )
 
         self._modules_by_layer_name[layers_without_modules[0]] = (
